@@ -128,6 +128,10 @@ type HStep struct {
 	Extra  []BodySpec `json:"extra,omitempty"`  // further replies (normally none)
 	Next   int        `json:"next,omitempty"`   // >0: register continuation with this id
 	Park   bool       `json:"park,omitempty"`   // park inside the handler
+	// ViaWrite: send the reply with Response.Write and a hand-made header whose length
+	// field is WrongLen (the server must still announce the true length).
+	ViaWrite bool   `json:"via_write,omitempty"`
+	WrongLen uint32 `json:"wrong_len,omitempty"`
 }
 
 // SrvReply is what a model server writes in response to the i-th request of a real client.
